@@ -5,13 +5,16 @@ import os
 import re
 
 import vlib
+import c04consts
 from runner import Property, ExecError
 from vlib import cz, clist, cbool, copt
 
 HOUR = 3600 * 10**9
 SHORT = 3 * 10**6          # the real timeout used for the 503 branch: 3 ms
-CODES = [200, 201, 204, 301, 400, 404, 500, 502, 504]
+CODES = [200, 201, 204, 301, 400, 404, 500, 502, 504, 101]
+INFO_CODES = [100, 102, 103, 199]      # informational: sent at once by net/http, not the status
 BAD_CODES = [0, 99, 600, 1000]
+SHORT20 = 20 * 10**6       # a real timeout for server cases: 20 ms
 OV = os.path.join(vlib.HARNESS, "overlay")
 
 
@@ -35,7 +38,7 @@ class C04(Property):
     level_note = ("Trusted: Coq kernel + vm_compute; hand-written LTS (each mutex-protected method / channel operation is one "
                   "atomic action; validated by a free-running -race monitor in the thorough tier); context.WithTimeout modelled "
                   "as min(parent, now+d); the executor linearises what it observed (S's position is inferred from write errors "
-                  "and the response); Flusher/Hijacker/Pusher pass-throughs are outside the handler behaviours covered.")
+                  "and the response); Hijacker/Pusher pass-throughs are outside the handler behaviours covered.")
     rule = ("REST: scripts of 0..7 actions (header set/add/del, WriteHeader incl. invalid codes, Write chunks, ctx check, panic), "
             "D = none | cancel | real timeout / parent deadline | race at EVERY script position, plus websocket/SSE/zero-timeout "
             "exemptions; sequences of 2-3 requests through ONE TimeoutHandler instance with the first handler abandoned at its "
@@ -52,8 +55,20 @@ class C04(Property):
         "the REST real writer is a test double with net/http semantics (first WriteHeader/Write freezes status+headers)",
         "httpx error handler left at its default (no httpx.SetErrorHandler)",
     ]
-    assumptions = ["handler does not use http.Flusher / Hijacker / Pusher",
-                   "status codes written by generated handlers avoid 499/503 and 1xx"]
+    assumptions = ["handler does not use http.Hijacker / Pusher (websocket upgrades, which do, are exempt)",
+                   "status codes written by generated handlers avoid 499/503"]
+
+    _consts = None
+
+    @property
+    def consts(self):
+        if self._consts is None:
+            self._consts = c04consts.extract()
+        return self._consts
+
+    def regen(self, ctx):
+        self._consts = None
+        return c04consts.regen()
 
     # ------------------------------------------------------------------
     def prepare(self, ctx):
@@ -84,13 +99,54 @@ class C04(Property):
         # whether WriteHeader ran before or after the timeout branch shows only in a later invalid code
         for y in (0, 1, 1, 3, 8):
             res.append(self._rest([["wh", 502], ["wh", 1000]], [], "race", 0, yld=y))
+        # Flush (repaired by 696f32f): status kept, nothing passed on after the timeout
+        fs = [["set", 1, 7], ["wh", 404], ["w", [200]], ["flush"], ["set", 2, 9], ["w", [201]], ["flush"], ["w", [202]]]
+        for fl in (True, False):
+            res.append(self._rest(fs, [[1, [5]]], "none", 0, fl=fl))
+            for pos in range(0, 10):
+                res.append(self._rest(fs, [[1, [5]]], "cancel", pos, fl=fl))
+        res.append(self._rest([["w", [200]], ["flush"]], [], "cancel", 1, fl=True))
+        res.append(self._rest([["flush"], ["wh", 404], ["w", [200]]], [], "none", 0, fl=True))
+        res.append(self._rest(fs, [], "cancel", 3, req="sse", fl=True))
+        # 1xx informational codes: after the final status (ignored), and headers around them with D at every position
+        i1 = [["set", 1, 7], ["wh", 201], ["wh", 103], ["set", 2, 9], ["w", [200]], ["wh", 100]]
+        for pos in range(0, 8):
+            res.append(self._rest(i1, [[3, [4]]], "cancel", pos, fl=pos % 2 == 0))
+        # ... and first (known finding C04-informational-status when the handler completes)
+        i2 = [["set", 1, 7], ["wh", 103], ["set", 2, 9], ["wh", 102], ["wh", 404], ["w", [200]]]
+        for pos in range(0, 8):
+            res.append(self._rest(i2, [[3, [4]]], "cancel", pos))
+        res.append(self._rest(i2, [], "none", 0, fl=True))
+        res.append(self._rest([["wh", 101], ["w", [200]]], [], "none", 0))
+        res.append(self._rest(i2, [], "cancel", 2, req="ws"))
         return res
 
-    def _rest(self, script, h0, mode, pos, req="plain", dur=None, parent=None, yld=0):
+    def _rest(self, script, h0, mode, pos, req="plain", dur=None, parent=None, yld=0, fl=False):
         if dur is None:
             dur = SHORT if mode == "deadline" else HOUR
-        return {"kind": "rest", "req": req, "dur_ns": dur, "parent_ns": parent, "h0": h0,
+        return {"kind": "rest", "req": req, "dur_ns": dur, "parent_ns": parent, "h0": h0, "fl": fl,
                 "script": script, "d": {"mode": mode, "pos": pos, "yield": yld}}
+
+    @staticmethod
+    def _info_first(script, fl):
+        """the first status-committing action is WriteHeader(1xx != 101) (Model.info_first)"""
+        for a in script:
+            if a[0] == "wh":
+                return 100 <= a[1] <= 199 and a[1] != 101
+            if a[0] == "w" or (a[0] == "flush" and fl):
+                return False
+        return False
+
+    def _no_info_first(self, script, fl):
+        """replace a leading 1xx by a final code (multi-request cases keep clear of the known finding)"""
+        if not self._info_first(script, fl):
+            return script
+        out, done = [], False
+        for a in script:
+            if not done and a[0] == "wh":
+                a, done = ["wh", 202], True
+            out.append(a)
+        return out
 
     def _script(self, rng):
         n = rng.choice([0, 1, 2, 3, 3, 4, 4, 5, 6, 7])
@@ -104,15 +160,22 @@ class C04(Property):
             elif r < 0.32:
                 acts.append(["del", rng.randint(1, 3)])
             elif r < 0.50:
-                c = rng.choice(CODES) if rng.random() < 0.9 else rng.choice(BAD_CODES)
+                x = rng.random()
+                c = rng.choice(CODES) if x < 0.75 else (rng.choice(INFO_CODES) if x < 0.9 else rng.choice(BAD_CODES))
                 acts.append(["wh", c])
-            elif r < 0.82:
+            elif r < 0.76:
                 k = rng.choice([0, 1, 1, 2, 3])
                 acts.append(["w", [rng.randint(128, 255) for _ in range(k)]])
+            elif r < 0.84:
+                acts.append(["flush"])
             elif r < 0.95:
                 acts.append(["chk"])
             else:
                 acts.append(["panic", rng.randint(1, 9)])
+        # most 1xx codes come after a final status (ignored by every writer); one in three
+        # scripts that start with a 1xx keeps it (known finding C04-informational-status)
+        if rng.random() < 0.67:
+            acts = self._no_info_first(self._no_info_first(acts, True), False)
         return acts
 
     def _h0(self, rng):
@@ -123,33 +186,35 @@ class C04(Property):
 
     def gen(self, rng, n, tier):
         cases = []
-        n_rest = n if not self._slots_enabled() else (n * 40) // 100
-        n_seq = (n * 20) // 100
+        n_rest = n if not self._slots_enabled() else (n * 36) // 100
+        n_seq = (n * 16) // 100
         while len(cases) < n_rest:
             script = self._script(rng)
             h0 = self._h0(rng)
+            fl = rng.random() < 0.6
             steps = len(script) + 1
             par = rng.choice([None, None, HOUR // 2, 2 * HOUR])
-            cases.append(self._rest(script, h0, "none", 0, parent=par))
-            cases.append(self._rest(script, h0, "pre", 0, parent=par))
+            cases.append(self._rest(script, h0, "none", 0, parent=par, fl=fl))
+            cases.append(self._rest(script, h0, "pre", 0, parent=par, fl=fl))
             for pos in range(0, steps + 1):
-                cases.append(self._rest(script, h0, "cancel", pos, parent=par))
+                cases.append(self._rest(script, h0, "cancel", pos, parent=par, fl=fl))
             for pos in range(0, steps):
                 if rng.random() < 0.5:
-                    cases.append(self._rest(script, h0, "deadline", pos, parent=rng.choice([None, 2 * HOUR])))
+                    cases.append(self._rest(script, h0, "deadline", pos, parent=rng.choice([None, 2 * HOUR]), fl=fl))
                 else:
-                    cases.append(self._rest(script, h0, "deadline", pos, dur=HOUR, parent=SHORT))
-                cases.append(self._rest(script, h0, "race", pos, parent=par, yld=rng.choice([0, 0, 1, 3, 8])))
+                    cases.append(self._rest(script, h0, "deadline", pos, dur=HOUR, parent=SHORT, fl=fl))
+                cases.append(self._rest(script, h0, "race", pos, parent=par, yld=rng.choice([0, 0, 1, 3, 8]), fl=fl))
             x = rng.random()
             pos = rng.randint(0, steps)
             if x < 0.25:
-                cases.append(self._rest(script, h0, "cancel", pos, req="ws", parent=par))
+                cases.append(self._rest(script, h0, "cancel", pos, req="ws", parent=par, fl=fl))
             elif x < 0.5:
-                cases.append(self._rest(script, h0, "cancel", pos, req="sse", parent=par))
+                cases.append(self._rest(script, h0, "cancel", pos, req="sse", parent=par, fl=fl))
             elif x < 0.65:
-                cases.append(self._rest(script, h0, "cancel", pos, dur=rng.choice([0, -5]), parent=par))
+                cases.append(self._rest(script, h0, "cancel", pos, dur=rng.choice([0, -5]), parent=par, fl=fl))
         cases = cases[:max(n_rest, 1)]
         cases += self._gen_seq(rng, n_seq)
+        cases += self._gen_srv(rng, (n * 14) // 100)
         cases += self._gen_sseq(rng, (n * 12) // 100)
         if self._slots_enabled():
             cases += self._gen_slots(rng, n - len(cases))
@@ -171,13 +236,17 @@ class C04(Property):
                 acts.append(["del", rng.randint(1, 3)])
             elif r < 0.5:
                 acts.append(["wh", rng.choice(codes) if rng.random() < 0.9 else rng.choice(BAD_CODES)])
-            elif r < 0.9 or not full:
+            elif r < 0.8:
                 acts.append(["w", [rng.randint(lo, hi) for _ in range(rng.choice([1, 1, 2, 3]))]])
+            elif r < 0.9:
+                acts.append(["flush"])
+            elif not full:
+                acts.append(["wh", rng.choice(INFO_CODES + codes)])
             elif r < 0.96:
                 acts.append(["chk"])
             else:
                 acts.append(["panic", rng.randint(1, 9)])
-        return acts
+        return self._no_info_first(self._no_info_first(acts, True), False)
 
     def _seq(self, reqs, order):
         c = {"kind": "seq", "dur_ns": HOUR, "reqs": reqs, "order": order}
@@ -189,7 +258,8 @@ class C04(Property):
         while len(cases) < n:
             a = self._seq_script(rng, 0, False)      # the abandoned handler ignores its context
             b = self._seq_script(rng, 1, True)
-            reqs = [{"h0": self._h0(rng), "script": a}, {"h0": self._h0(rng), "script": b}]
+            reqs = [{"h0": self._h0(rng), "script": a, "fl": rng.random() < 0.6},
+                    {"h0": self._h0(rng), "script": b, "fl": rng.random() < 0.6}]
             ka = rng.randint(0, len(a))
             head = [["start", 0]] + [["H", 0]] * ka + [["D", 0]]
             late = [["H", 0]] * (len(a) + 1 - ka)
@@ -219,10 +289,113 @@ class C04(Property):
             # a third request after the two
             if rng.random() < 0.3:
                 c3 = self._seq_script(rng, 1, True)
-                r3 = reqs + [{"h0": [], "script": c3}]
+                r3 = reqs + [{"h0": [], "script": c3, "fl": rng.random() < 0.5}]
                 cases.append(self._seq(r3, head + bseq[:2] + late[:1] + bseq[2:] + [["start", 2]] + late[1:2]
                                        + [["H", 2]] * (len(c3) + 1) + late[2:]))
         return cases[:n]
+
+    # a real rest.Server with several routes ---------------------------------------
+    GROUP_OPTS = [[], [], [["timeout", HOUR]], [["timeout", 2 * HOUR]], [["sse"]], [["timeout", HOUR], ["sse"]],
+                  [["sse"], ["timeout", HOUR]], [["timeout", -5]], [["timeout", 0]],
+                  [["timeout", HOUR], ["timeout", HOUR // 2]], [["timeout", SHORT20]], [["timeout", SHORT20]]]
+
+    def _req_hdrs(self, rng):
+        (un, uv), (an, av) = self.consts["exempt"]
+        x = rng.random()
+        if x < 0.5:
+            return []
+        if x < 0.62:
+            return [[un, uv]]
+        if x < 0.74:
+            return [[an, av]]
+        if x < 0.8:
+            return [[un, uv.capitalize()]]                  # "Websocket": not the literal the code compares with
+        if x < 0.86:
+            return [[an, av + ", text/html"]]
+        if x < 0.92:
+            return [[an, "application/json"], ["Connection", "Upgrade"]]
+        return [[un, uv], [an, av]]
+
+    def _srv_dur(self, c, q):
+        """the timeout the model expects for request q (mirror of Model.eng_route_dur, generation only)"""
+        t, sse = 0, False
+        for o in c["groups"][q["group"]]["opts"]:
+            if o[0] == "timeout":
+                t = o[1]
+            else:
+                t, sse = 0, True
+        if not c["mw_timeout"]:
+            return 0, sse
+        return (t if t > 0 else c["conf_ms"] * 10**6), sse
+
+    def _srv_exempt(self, q):
+        (un, uv), (an, av) = self.consts["exempt"]
+        h = {}
+        for k, v in q["hdrs"]:
+            h.setdefault(k, v)
+        return h.get(un) == uv or h.get(an) == av
+
+    def _gen_srv(self, rng, n):
+        cases = []
+        while len(cases) < n:
+            c = {"kind": "srv", "conf_ms": rng.choice([0, 60000, 60000, 3600000]), "mw_timeout": rng.random() < 0.85,
+                 "mw_inner": rng.random() < 0.25, "groups": [], "reqs": [], "order": []}
+            for _ in range(rng.choice([2, 3, 3, 4])):
+                c["groups"].append({"opts": rng.choice(self.GROUP_OPTS), "n": rng.choice([1, 1, 2])})
+            nreq = rng.choice([2, 2, 3])
+            threads = []
+            for i in range(nreq):
+                g = rng.randrange(len(c["groups"]))
+                q = {"group": g, "route": rng.randrange(c["groups"][g]["n"]), "hdrs": self._req_hdrs(rng),
+                     "parent_ns": rng.choice([None, None, HOUR // 3 + 7, 3 * HOUR]), "fl": rng.random() < 0.6,
+                     "h0": self._h0(rng), "deadline": False}
+                dur, _sse = self._srv_dur(c, q)
+                wrapped = dur > 0 and not self._srv_exempt(q)
+                script = self._seq_script(rng, i % 2, True)
+                if c["mw_inner"]:
+                    script = [a for a in script if a[0] != "panic"]
+                if not wrapped and rng.random() < 0.3:
+                    q["parent_ns"] = SHORT20                 # an unwrapped handler watching its caller's own deadline
+                    q["deadline"] = True
+                elif wrapped and dur > SHORT20 and rng.random() < 0.15:
+                    q["parent_ns"] = SHORT20                 # the caller's deadline is earlier than now+timeout
+                    q["deadline"] = True
+                elif wrapped and dur == SHORT20:
+                    q["deadline"] = True
+                    if q["parent_ns"] is not None and q["parent_ns"] < HOUR:
+                        q["parent_ns"] = 3 * HOUR
+                nact = len(script) + 1
+                if q["deadline"]:
+                    # before the timer only actions whose report does not depend on the timer's place
+                    k = rng.randint(0, min(2, len(script)))
+                    pre = [a for a in script[:k] if a[0] in ("set", "add", "del") or (a[0] == "wh" and a[1] in CODES)]
+                    script = pre + script[k:]
+                    if not wrapped:
+                        pre = [a for a in pre if a[0] != "chk"]
+                    nact = len(script) + 1
+                    th = [["start", i]] + [["H", i]] * len(pre) + [["T", i]] + [["H", i]] * (nact - len(pre))
+                elif rng.random() < 0.6:
+                    k = rng.randint(0, nact)
+                    th = [["start", i]] + [["H", i]] * k + [["D", i]] + [["H", i]] * (nact - k)
+                else:
+                    th = [["start", i]] + [["H", i]] * nact
+                q["script"] = self._no_info_first(self._no_info_first(script, True), False)
+                c["reqs"].append(q)
+                threads.append(th)
+            # merge the per-request event lists: sequential, or interleaved at random
+            if rng.random() < 0.3:
+                for th in threads:
+                    c["order"] += th
+            else:
+                live = [list(th) for th in threads]
+                cur = 0
+                while any(live):
+                    if not live[cur] or rng.random() < 0.4:
+                        cur = rng.choice([j for j, th in enumerate(live) if th])
+                    c["order"].append(live[cur].pop(0))
+            c["procs"] = int(vlib.canon_hash(c), 16) % 2
+            cases.append(c)
+        return cases
 
     # sequences of calls through one interceptor instance / fx ----------------------
     def _call(self, rng, who, abandoned, parent=None):
@@ -304,8 +477,7 @@ class C04(Property):
     def _gen_slots(self, rng, n):
         cases = []
         n_client = max(4, n // 12)
-        n_engine = max(4, n // 16)
-        n_slot = max(8, n - n_client - n_engine)
+        n_slot = max(8, n - n_client)
         while len(cases) < n_slot:
             kind = "zrpc" if rng.random() < 0.7 else "fx"
             steps = [rng.choice(["work", "work", "chk"]) for _ in range(rng.choice([0, 1, 2, 2, 3, 4]))]
@@ -369,11 +541,6 @@ class C04(Property):
                           "default_ns": rng.choice([0, -1, HOUR, HOUR // 2]),
                           "parent_ns": rng.choice([None, HOUR // 3 + 17, 3 * HOUR]),
                           "inv_err": rng.choice([0, 0, 7])})
-        for _ in range(n_engine):
-            cases.append({"kind": "engine",
-                          "route_ns": rng.choice([0, 0, -5, 10**8, 10**8, HOUR // 3, HOUR]),
-                          "conf_ms": rng.choice([0, 3000, 600000, 3600000]),
-                          "parent_ns": rng.choice([None, HOUR // 6 + 3, 3 * HOUR])})
         return cases
 
     # ------------------------------------------------------------------
@@ -428,9 +595,10 @@ class C04(Property):
         elif kind == "client":
             pkg, d = "./zrpc/internal/clientinterceptors", "zrpc/internal/clientinterceptors"
             files = {d + "/verif_c04_test.go": os.path.join(OV, "clientinterceptors", "verif_c04_test.go")}
-        elif kind == "engine":
+        elif kind == "srv":
             pkg = "./rest"
-            files = {"rest/verif_c04_test.go": os.path.join(OV, "rest", "verif_c04_test.go")}
+            files = {"rest/verif_c04_test.go": os.path.join(OV, "rest", "verif_c04_test.go"),
+                     "rest/verif_c04_restctl_test.go": self._slotctl_copy("rest", "restctl.go")}
         else:
             raise ExecError("c04: unknown case kind %s" % kind)
         rc, out, res = vlib.go_test_overlay(pkg, files, run=run, cases=sub, tag="c04" + kind, timeout=900)
@@ -438,12 +606,12 @@ class C04(Property):
             raise ExecError("c04 %s overlay test rc=%s: %s" % (kind, rc, out[-2500:]))
         return res
 
-    def _slotctl_copy(self, pkg):
-        src = open(os.path.join(vlib.HARNESS, "cmd", "c04", "slotctl.go")).read()
+    def _slotctl_copy(self, pkg, name="slotctl.go"):
+        src = open(os.path.join(vlib.HARNESS, "cmd", "c04", name)).read()
         text = src.replace("package main", "package " + pkg, 1)
         d = os.path.join(vlib.ROOT, ".run")
         os.makedirs(d, exist_ok=True)
-        path = os.path.join(d, "c04_slotctl_%s_test.go" % pkg)
+        path = os.path.join(d, "c04_%s_%s_test.go" % (name[:-3], pkg))
         if not os.path.exists(path) or open(path).read() != text:
             tmp = path + ".tmp%d" % os.getpid()
             with open(tmp, "w") as f:
@@ -520,6 +688,8 @@ class C04(Property):
             return "AWrite %s" % clist([cz(b) for b in a[1]])
         if t == "chk":
             return "ACheckCtx"
+        if t == "flush":
+            return "AFlush"
         return "APanic %s" % cz(a[1])
 
     def _hdrs(self, h):
@@ -532,6 +702,38 @@ class C04(Property):
             items.append((k, vs))
         items.sort()
         return clist(["(%s, %s)" % (cz(k), clist([cz(v) for v in vs])) for k, vs in items])
+
+    def _hx(self, hs, xs):
+        """header list of the writer double + headers outside the scripts' namespace: the ones an
+        SSE route sets (C04Consts.sse_route_headers, i-th = key 900+i value 950+i) are mapped, any
+        other counts as extra"""
+        items = [[h["k"], h["vs"]] for h in hs]
+        extra = 0
+        known = self.consts["sse_headers"]
+        for x in xs or []:
+            idx = next((i for i, kv in enumerate(known) if kv[0] == x["name"]), None)
+            if idx is None or x["vals"] != [known[idx][1]]:
+                extra += 1
+            else:
+                items.append([900 + idx, [950 + idx]])
+        return items, extra
+
+    def _wfields(self, w):
+        """status snap live body infos flushes extra late foreign of a WOut"""
+        snap, e1 = self._hx(w["snap"], w.get("snap_x"))
+        live, e2 = self._hx(w["live"], w.get("live_x"))
+        extra = e1 + e2
+        infos = []
+        for inf in w["infos"]:
+            hs, e = self._hx(inf["hdrs"], inf.get("x"))
+            extra += e
+            infos.append("(%s, %s)" % (cz(inf["code"]), self._hdrs(hs)))
+        return [cz(w["status"]), self._hdrs(snap), self._hdrs(live), clist([cz(b) for b in w["body"]]),
+                clist(infos), cz(w["flushes"]), cz(extra), cz(w["late"]), cz(w["foreign"])]
+
+    @staticmethod
+    def _bstr(s):
+        return clist([cz(b) for b in s.encode()])
 
     def _ev(self, e):
         return {"H": "EH", "Dc": "ED KCancel", "Dd": "ED KDeadline",
@@ -580,14 +782,15 @@ class C04(Property):
                 clist([cz(x) for x in case["opts"]]), cz(case["default_ns"]), self._optz(case["parent_ns"]),
                 cz(case["inv_err"]), self._optz(obs["dl_seen_ns"] if obs["has_dl"] else None), cz(obs["t1_ns"]),
                 cz(obs["ret_err"]))
-        if k == "engine":
-            return "CEngine (mkEngine %s %s %s %s %s)" % (
-                cz(case["route_ns"]), cz(case["conf_ms"]), self._optz(case["parent_ns"]),
-                self._optz(obs["dl_seen_ns"] if obs["has_dl"] else None), cz(obs["t1_ns"]))
+        if k == "srv":
+            return self._coq_srv(case, obs)
         raise ExecError("unknown kind")
 
-    def _coq_seq(self, c, o):
-        cancelled = set(e[1] for e in c["order"] if e[0] == "D")
+    def _seq_reqs(self, c, o):
+        dk = {}
+        for e in c["order"]:
+            if e[0] == "D" and e[1] not in dk:
+                dk[e[1]] = "KCancel"
         rs = []
         for i, (rin, ro) in enumerate(zip(c["reqs"], o["reqs"])):
             sout = {"wait": "SoWait", "ret": "SoRet"}.get(ro["sout"])
@@ -595,14 +798,49 @@ class C04(Property):
                 sout = "(SoPanic %s)" % self._pval(ro["pkind"], ro["pval"])
             if o.get("stuck", -1) == i:
                 sout = "SoWait"      # one of its handler's actions hung: the request never completed
+            dmode = "KDeadline" if rin.get("deadline") else dk.get(i)
+            hdrs = clist(["(%s, %s)" % (self._bstr(k), self._bstr(v)) for k, v in rin.get("hdrs", [])])
             rs.append("(mkSR %s)" % " ".join([
-                self._hdrs(rin["h0"]), clist([self._act(a) for a in rin["script"]]),
-                copt("KCancel" if i in cancelled else None), sout, cz(ro["status"]), self._hdrs(ro["snap"]),
-                self._hdrs(ro["live"]), clist([cz(b) for b in ro["body"]]), cz(ro["extra"]), cz(ro["late"]),
-                cz(ro["foreign"])]))
+                cbool(rin.get("fl", False)), self._hdrs(rin["h0"]), clist([self._act(a) for a in rin["script"]]),
+                copt(dmode), hdrs, self._optz(rin.get("parent_ns")), "%d%%nat" % rin.get("group", 0), sout]
+                + self._wfields(ro["w"]) +
+                [cbool(ro["wrapped"]), self._optz(ro["dl_seen_ns"] if ro["has_dl"] else None),
+                 cz(ro["t0_ns"]), cz(ro["t1_ns"])]))
         sched = clist(["(%d%%nat, %s)" % (i, self._ev(e)) for i, e in o["sched"]])
         hobs = clist(["(%d%%nat, %s)" % (x[0], self._ares(x[1:])) for x in o["hobs"]])
-        return "CSeq (mkSeq %s %s %s %s %s)" % (cz(c["dur_ns"]), clist(rs), sched, hobs, cz(o["ret_at_d"]))
+        return clist(rs), sched, hobs
+
+    def _coq_seq(self, c, o):
+        rs, sched, hobs = self._seq_reqs(c, o)
+        return "CSeq (mkSeq %s %s %s %s %s)" % (cz(c["dur_ns"]), rs, sched, hobs, cz(o["ret_at_d"]))
+
+    def _coq_srv(self, c, o):
+        # the wrapper of an SSE route sets its headers when the route handler starts, before the
+        # scripted handler's first gate: these are H events of that request right before its first event
+        nsse = len(self.consts["sse_headers"])
+        sse = set(i for i, q in enumerate(c["reqs"]) if self._srv_dur(c, q)[1] and o["reqs"][i]["t1_ns"] != 0)
+        if sse:
+            o = dict(o)
+            sched, hobs, seen, hp = [], [], set(), 0
+            for i, e in o["sched"]:
+                if i in sse and i not in seen:
+                    seen.add(i)
+                    sched += [[i, "H"]] * nsse
+                    hobs += [[i, "none"]] * nsse
+                sched.append([i, e])
+                if e == "H":
+                    hobs.append(o["hobs"][hp])
+                    hp += 1
+            for i in sorted(sse - seen):
+                sched += [[i, "H"]] * nsse
+                hobs += [[i, "none"]] * nsse
+            o["sched"], o["hobs"] = sched, hobs + o["hobs"][hp:]
+        rs, sched, hobs = self._seq_reqs(c, o)
+        groups = clist([clist(["(OptTimeout %s)" % cz(x[1]) if x[0] == "timeout" else "OptSSE" for x in g["opts"]])
+                        for g in c["groups"]])
+        return "CSrv (mkSrv %s %s %s %s %s %s %s %s %s %s)" % (
+            cz(c["conf_ms"]), cbool(c["mw_timeout"]), groups, rs, sched, hobs, cz(o["ret_at_d"]),
+            cz(o["read_ns"]), cz(o["write_ns"]), cz(o["eng_ns"]))
 
     def _coq_sseq(self, c, o):
         dk = {}
@@ -675,14 +913,13 @@ class C04(Property):
         if sout is None:
             sout = "(SoPanic %s)" % self._pval(o["pkind"], o["pval"])
         fields = [
+            cbool(c.get("fl", False)),
             self._hdrs(c["h0"]), clist([self._act(a) for a in c["script"]]), cz(c["dur_ns"]), rq,
             self._optz(c["parent_ns"]), copt(_kind(c["d"]["mode"])),
             cbool(o["wrapped"]), clist([self._ev(e) for e in o["sched"]]),
             clist([clist([self._ev(e) for e in alt]) for alt in self._alts(c, o["sched"])]),
-            clist([self._ares(x) for x in o["hobs"]]),
-            sout, cz(o["status"]), self._hdrs(o["snap"]), self._hdrs(o["live"]), clist([cz(b) for b in o["body"]]),
-            cz(o["extra"]), cz(o["late"]), cz(o["foreign"]),
-            self._optz(o["dl_seen_ns"] if o["has_dl"] else None), cz(o["t1_ns"]), cz(o["ret_at_d"]),
+            clist([self._ares(x) for x in o["hobs"]]), sout] + self._wfields(o["w"]) + [
+            self._optz(o["dl_seen_ns"] if o["has_dl"] else None), "0", cz(o["t1_ns"]), cz(o["ret_at_d"]),
         ]
         return "CRest (mkRest %s)" % " ".join(fields)
 
@@ -704,6 +941,16 @@ class C04(Property):
             later = s[first_t + 1:]
             return any(e[0] == i and e[1] == "H" for e in later) and any(e[0] != i and e[1] == "H" for e in later) \
                 and any(x[0] == i and x[1] == "wto" for x in obs["hobs"])
+        if case["kind"] == "srv":
+            # a wrapped request was ended by its Done event while another request of the same server was in flight
+            s = obs["sched"]
+            for j, e in enumerate(s):
+                if e[1] == "St":
+                    others = set(x[0] for x in s[:j] if x[0] != e[0])
+                    ended = set(x[0] for x in s[:j] if x[1] in ("Sd", "Sp", "St"))
+                    if (others - ended) or any(x[0] != e[0] for x in s[j + 1:]):
+                        return True
+            return False
         if case["kind"] in ("zseq", "fxseq"):
             # a timed-out call's work ended (returned / panicked) while another call was in flight
             s = obs["sched"]
@@ -748,6 +995,13 @@ class C04(Property):
                 fs.append("rest:has_ctx_check")
             if any(a[0] == "panic" for a in case["script"]):
                 fs.append("rest:has_panic")
+            if case.get("fl") and any(a[0] == "flush" for a in case["script"]):
+                fs.append("rest:flush")
+                s = obs["sched"]
+                if obs["wrapped"] and "St" in s and obs["w"]["flushes"] > 0:
+                    fs.append("rest:flushed_before_timeout")
+            if any(a[0] == "wh" and a[1] in INFO_CODES for a in case["script"]):
+                fs.append("rest:has_1xx" + (":first" if self._info_first(case["script"], case.get("fl")) else ""))
         if case["kind"] in ("zseq", "fxseq"):
             k = case["kind"]
             fs.append(k + ":calls=%d" % len(case["calls"]))
@@ -755,10 +1009,29 @@ class C04(Property):
             for i, cl in enumerate(obs["calls"]):
                 fs.append("%s:call%d=%s" % (k, i, "panic" if cl["panicked"] else
                                             ("timeout" if cl["e"] in (-1, -2) and cl["r"] == 0 else "result")))
+        if case["kind"] == "srv":
+            fs.append("srv:reqs=%d" % len(case["reqs"]))
+            fs.append("srv:mw_timeout=%s" % case["mw_timeout"])
+            fs.append("srv:conf_ms=%d" % case["conf_ms"])
+            if case["mw_inner"]:
+                fs.append("srv:inner_middlewares")
+            for q, r in zip(case["reqs"], obs["reqs"]):
+                dur, sse = self._srv_dur(case, q)
+                fs.append("srv:route=%s%s" % ("sse" if sse else "plain",
+                                               ":own_timeout" if any(o[0] == "timeout" and o[1] > 0 for o in case["groups"][q["group"]]["opts"]) and not sse else ""))
+                fs.append("srv:req=%s" % ("exempt" if self._srv_exempt(q) else ("hdr_variant" if q["hdrs"] else "plain")))
+                fs.append("srv:wrapped=%s" % r["wrapped"])
+                if r["wrapped"]:
+                    st = r["w"]["status"]
+                    fs.append("srv:outcome=%s" % (st if st in (499, 503) else r["sout"]))
+                    if q["parent_ns"] is not None and q["parent_ns"] < dur:
+                        fs.append("srv:caller_deadline_earlier")
+                if q["fl"] and any(a[0] == "flush" for a in q["script"]):
+                    fs.append("srv:flush")
         if case["kind"] == "seq":
             fs.append("seq:reqs=%d" % len(case["reqs"]))
             for i, r in enumerate(obs["reqs"]):
-                fs.append("seq:req%d=%s" % (i, "timeout" if r["status"] == 499 else r["sout"]))
+                fs.append("seq:req%d=%s" % (i, "timeout" if r["w"]["status"] == 499 else r["sout"]))
             if any(x[1] == "wto" for x in obs["hobs"]):
                 fs.append("seq:late_write_refused")
         if case["kind"] in ("zrpc", "fx"):
@@ -793,6 +1066,37 @@ class C04(Property):
                     c = copy.deepcopy(case)
                     c["script"][j] = ["w", a[1][:1]]
                     res.append(c)
+        if case["kind"] in ("rest",) and case.get("fl"):
+            c = copy.deepcopy(case)
+            c["fl"] = False
+            res.append(c)
+        if case["kind"] == "srv":
+            for drop in range(len(case["reqs"])):
+                if len(case["reqs"]) > 1:
+                    c = copy.deepcopy(case)
+                    del c["reqs"][drop]
+                    c["order"] = [[e[0], e[1] - (1 if e[1] > drop else 0)] for e in c["order"] if e[1] != drop]
+                    res.append(c)
+            for i, r in enumerate(case["reqs"]):
+                for j in range(len(r["script"])):
+                    c = copy.deepcopy(case)
+                    c["reqs"][i]["script"] = r["script"][:j] + r["script"][j + 1:]
+                    idx = [t for t, e in enumerate(c["order"]) if e == ["H", i]]
+                    if idx:
+                        del c["order"][idx[-1]]
+                    res.append(c)
+                if r["h0"]:
+                    c = copy.deepcopy(case)
+                    c["reqs"][i]["h0"] = []
+                    res.append(c)
+            if case.get("mw_inner"):
+                c = copy.deepcopy(case)
+                c["mw_inner"] = False
+                res.append(c)
+            if case.get("procs"):
+                c = copy.deepcopy(case)
+                c["procs"] = 0
+                res.append(c)
         if case["kind"] == "seq":
             for i, r in enumerate(case["reqs"]):
                 for j in range(len(r["script"])):
@@ -850,6 +1154,29 @@ class C04(Property):
                 res.append(c)
         return res
 
+    def known(self, case, obs):
+        """C04-informational-status: single-request REST case whose script's first status-committing action
+        is WriteHeader(1xx != 101); the handler completed and the client got exactly that 1xx once,
+        then status 200 and all the body chunks of the run.  Nothing else is excused."""
+        if case.get("kind") != "rest" or not obs.get("wrapped"):
+            return None
+        fl = bool(case.get("fl"))
+        sc = case["script"]
+        if not self._info_first(sc, fl) or obs["sout"] != "ret":
+            return None
+        first = next(a[1] for a in sc if a[0] == "wh")
+        w = obs["w"]
+        if w["status"] != 200 or [x["code"] for x in w["infos"]] != [first] or w["late"] != 0:
+            return None
+        runs = [sc]
+        if case["d"]["mode"] != "none":
+            runs += [sc[:j + 1] for j, a in enumerate(sc) if a[0] == "chk"]
+        for run in runs:
+            body = [b for a in run if a[0] == "w" for b in a[1]]
+            if body == w["body"]:
+                return "C04-informational-status"
+        return None
+
     def describe_failure(self, case, obs):
         if case["kind"] == "rest":
             return ("REST timeout handler: the response is not the handler's complete response, the 503/499 timeout "
@@ -860,6 +1187,10 @@ class C04(Property):
             return ("several requests through one TimeoutHandler: a request's response is not all-or-nothing w.r.t. its "
                     "OWN script (something of another request's abandoned handler appears), or a late write of the "
                     "abandoned handler was accepted, or its timeout reply changed")
+        if case["kind"] == "srv":
+            return ("rest.Server with several routes: a request's handler deadline is not min(caller's, now + the timeout "
+                    "chosen for its route), or its response is not all-or-nothing w.r.t. its own route handler, or something "
+                    "reached the client after its timeout, or a websocket / event-stream request was wrapped or cut")
         if case["kind"] in ("zseq", "fxseq"):
             return ("several calls through one timeout interceptor / fx: a call returned something that is not its own "
                     "result, its own timeout error or its own panic (a signal of another call's abandoned work reached it), "
